@@ -1,4 +1,66 @@
 import PicoVerif.Model.AstWriters
+import PicoVerif.Props.C08
+/-! C09 — luafmt changes only whitespace and never drops code.
+PARTIAL: "luafmt succeeds on every valid program" is the agreement of two grammars (parser and writer) and is
+correspondence-tested; the theorems below are about what a tree-driven writer can write when it does succeed, and
+that it fails rather than write a shortened program. -/
 namespace Pico.C09
-theorem placeholder : True := trivial
+open Pico.Ast Pico.Lex Pico.Peg
+
+def isWs (b : UInt8) : Bool := b == 32 || b == 9 || b == 13 || b == 10
+def stripWs (s : Bytes) : Bytes := s.filter (fun b => !isWs b)
+
+/-- **C09.only_whitespace**: the formatter's rendering of a run of space/newline/comment tokens differs from the
+run's text only in whitespace characters (comments are kept, up to whitespace inside them). -/
+theorem only_whitespace (w d : Nat) (s e : Bool) (r : Bytes) : stripWs (normRun w d s e r) = stripWs r := by
+  sorry
+
+/-- **C09.line_breaks_kept**: a rendered run contains a line break iff the run did — so a short-if body stays on the
+`if` line, what followed it stays on a later line, and an end-of-line comment cannot swallow code. -/
+theorem line_breaks_kept (w d : Nat) (s e : Bool) (r : Bytes) :
+    (normRun w d s e r).contains 10 = (r.contains 10 || r.contains 13) := by
+  sorry
+
+/-- the output of a successful `assemble`: rendered runs interleaved with the codes of the walked tokens -/
+def Interleaved (fmt : RunFmt) (toks : Array Tok) : List (Nat × Nat) → Nat → Bytes → Prop
+  | [], pos, out => out = fmt 0 (pos == 0) true (runText toks pos toks.size)
+  | (i, d) :: rest, pos, out =>
+    ∃ tail, out = fmt d (pos == 0) false (runText toks pos i) ++ (toks.getD i default).code ++ tail ∧
+      Interleaved fmt toks rest (i + 1) tail
+
+/-- **C09.output_shape**: whatever run renderer is used, a successful write is, token for token, the walked tokens'
+codes in stream order, each preceded by the rendering of exactly the trivia tokens in front of it, with nothing
+else in between; the walked tokens are consecutive significant tokens and none is left at the end. -/
+theorem output_shape (fmt : RunFmt) (toks : Array Tok) (walk : List (Nat × Nat)) (pos : Nat) (acc out : Bytes)
+    (h : assemble fmt toks walk pos acc = .ok out) :
+    ∃ tail, out = acc ++ tail ∧ Interleaved fmt toks walk pos tail ∧
+      (walk.map (·.1)) = sigIdx toks pos ((walk.map (·.1)).getLast?.map (· + 1) |>.getD pos) ∧
+      skipTrivia toks ((walk.map (·.1)).getLast?.map (· + 1) |>.getD pos) ≥ toks.size := by
+  sorry
+
+/-- **C09.no_silent_loss**: if the tokens the writer walks stop before the last significant token of the stream —
+picotool could not parse the code to its end — the writer fails instead of writing a shortened program. -/
+theorem no_silent_loss (fmt : RunFmt) (toks : Array Tok) (walk : List (Nat × Nat)) (pos : Nat) (acc : Bytes) (j : Nat)
+    (hj : j < toks.size) (hsig : (toks.getD j default).trivia = false)
+    (hafter : ∀ i ∈ walk.map (·.1), i < j) (hpos : pos ≤ j) :
+    ∃ e, assemble fmt toks walk pos acc = .error e := by
+  sorry
+
+/-- **C09.walk_is_leaves**: the indent walk visits exactly the leaves of the tree, in order (so with C08.cover: exactly
+the significant tokens the parser consumed). -/
+theorem walk_is_leaves (toks : Array Tok) (t : Tree) (d : Nat) : (walkInd toks t d).map (·.1) = t.leaves := by
+  sorry
+
+def okIs (r : Except Err Bytes) (b : Bytes) : Bool := match r with | .ok x => x == b | .error _ => false
+def isParseErr (r : Except Err Bytes) : Bool := match r with | .error .parse => true | _ => false
+
+/-- **C09.degenerate**: the empty program, a comment-only program and a program without a final newline are written. -/
+example : okIs (luafmt 2 []) [] = true := by decide +kernel
+example : okIs (luafmt 2 [{ kind := .comment, data := [45, 45, 99] }]) [45, 45, 99] = true := by decide +kernel
+example : okIs (luafmt 2 [{ kind := .name, data := [97] }, { kind := .symbol, data := [61] }, { kind := .number, data := [49] }])
+    [97, 61, 49] = true := by decide +kernel
+/-- `a=b=c`: the parser stops after `a=b`; the writer reports a parse error instead of writing `a=b` -/
+example : isParseErr (luafmt 2 [{ kind := .name, data := [97] }, { kind := .symbol, data := [61] }, { kind := .name, data := [98] },
+    { kind := .symbol, data := [61] }, { kind := .name, data := [99] }]) = true := by decide +kernel
+
 end Pico.C09
